@@ -340,3 +340,167 @@ Example schema_len_after_annotation_object :
   snd (scan false (firstn 13 len_after_annotation_1)) = Done /\
   schema_len (firstn 13 len_after_annotation_1) = VLen 13.
 Proof. vm_compute. repeat split; reflexivity. Qed.
+
+(* ================================================================== *)
+(* 5. a slash that cannot begin an annotation ends the schema (fix a0479cf) *)
+(* ================================================================== *)
+(* the events only grow *)
+Lemma process_finds_extends i pb htc fs : forall stk acc stk' acc' ok,
+  process_finds i pb htc stk fs acc = (stk', acc', ok) -> exists new, acc' = new ++ acc.
+Proof.
+  induction fs as [|e r IH]; intros stk acc stk' acc' ok; cbn [process_finds].
+  - intros H. inversion H; subst. exists []. reflexivity.
+  - destruct (process_found i pb htc stk e) as [[stk1 x]|].
+    + intros H. destruct (IH _ _ _ _ _ H) as [new ->]. exists (new ++ [x]). rewrite <- app_assoc. reflexivity.
+    + intros H. inversion H; subst. exists []. reflexivity.
+Qed.
+Lemma read_byte_extends c la : forall fuel s idx pb acc,
+  exists new, fst (read_byte fuel s idx pb c la acc) = new ++ acc.
+Proof.
+  induction fuel as [|fuel IH]; intros s idx pb acc; cbn [read_byte]; [exists []; reflexivity|].
+  destruct (call call_fuel c la (s_step s) s) as [s1|code|]; try (exists []; reflexivity).
+  destruct (process_finds _ _ _ _ _ _) as [[stk' acc'] ok] eqn:Ep.
+  destruct (process_finds_extends _ _ _ _ _ _ _ _ _ Ep) as [new ->].
+  destruct ok; [|exists new; reflexivity].
+  destruct (s_back s1); [|exists new; reflexivity].
+  destruct (IH (set_back false (set_finds [] (set_stk stk' s1))) idx pb (new ++ acc)) as [new2 E].
+  exists (new2 ++ new). rewrite E, app_assoc. reflexivity.
+Qed.
+Lemma run_extends_n n : forall bs s idx pb acc, length bs <= n ->
+  exists new, r_acc (run s idx pb bs acc) = new ++ acc.
+Proof.
+  induction n as [|n IH]; intros bs s idx pb acc Hn;
+    (destruct bs as [|c r]; cbn [run]; [exists []; reflexivity|cbn [length] in Hn; try lia]).
+  destruct (read_byte_extends c r (S (length (s_rts s))) s idx pb acc) as [new E].
+  destruct (read_byte (S (length (s_rts s))) s idx pb c r acc) as [acc' [s'|o]]; cbn [fst] in E; subst acc'.
+  - destruct (s_skip s').
+    + destruct r as [|x [|y r2]]; try (exists new; reflexivity).
+      destruct (IH r2 (set_skip false s') (idx + 3)%N (Some y) (new ++ acc)) as [new2 E2]; [cbn [length] in Hn; lia|].
+      exists (new2 ++ new). rewrite E2, app_assoc. reflexivity.
+    + destruct (IH r s' (N.succ idx) (Some c) (new ++ acc)) as [new2 E2]; [lia|].
+      exists (new2 ++ new). rewrite E2, app_assoc. reflexivity.
+  - exists new. reflexivity.
+Qed.
+Lemma tail_extends size lastb : forall fuel s index acc,
+  exists new, fst (tail fuel s index size lastb acc) = new ++ acc.
+Proof.
+  induction fuel as [|fuel IH]; intros s index acc; cbn [tail]; [exists []; reflexivity|].
+  destruct (s_stk s) as [|[t b] rest]; [destruct (unfinished_step (s_step s)); exists []; reflexivity|].
+  destruct t; try (exists []; reflexivity).
+  - destruct (ev_eqb LiteralBegin LiteralBegin && s_unf s)%bool; [exists []; reflexivity|].
+    destruct (process_found _ _ _ _ _) as [[stk' x]|]; [|exists []; reflexivity].
+    destruct (IH (set_stk stk' s) (N.succ index) (x :: acc)) as [new E]. exists (new ++ [x]).
+    rewrite E, <- app_assoc. reflexivity.
+  - destruct (ev_eqb InlineAnnotationBegin LiteralBegin && s_unf s)%bool; [exists []; reflexivity|].
+    destruct (process_found _ _ _ _ _) as [[stk' x]|]; [|exists []; reflexivity].
+    destruct (IH (set_stk stk' s) (N.succ index) (x :: acc)) as [new E]. exists (new ++ [x]).
+    rewrite E, <- app_assoc. reflexivity.
+  - destruct (ev_eqb InlineAnnotationTextBegin LiteralBegin && s_unf s)%bool; [exists []; reflexivity|].
+    destruct (process_found _ _ _ _ _) as [[stk' x]|]; [|exists []; reflexivity].
+    destruct (IH (set_stk stk' s) (N.succ index) (x :: acc)) as [new E]. exists (new ++ [x]).
+    rewrite E, <- app_assoc. reflexivity.
+  - destruct (s_unf s); [exists []; reflexivity|].
+    destruct (process_found _ _ _ _ TypesShortcutEnd) as [[stk1 x1]|]; [|exists []; reflexivity].
+    destruct (process_found _ _ _ _ MixedValueEnd) as [[stk2 x2]|]; [|exists [x1]; reflexivity].
+    destruct (IH (set_stk stk2 s) (N.succ index) (x2 :: x1 :: acc)) as [new E]. exists (new ++ [x2; x1]).
+    rewrite E, <- app_assoc. reflexivity.
+Qed.
+
+(* what has been delivered when the scanner stands at [rest] stays at the head of the event list *)
+Lemma scan_events_from lc bs s' idx' pb' rest acc' :
+  run (new_scanner lc) 0%N None bs [] = run s' idx' pb' rest acc' ->
+  exists more, fst (scan lc bs) = rev acc' ++ more.
+Proof.
+  intros E. unfold scan. rewrite E.
+  destruct (run_extends_n (length rest) rest s' idx' pb' acc' (le_n _)) as [new En].
+  destruct (run s' idx' pb' rest acc') as [[[acc o] s] pb]. unfold r_acc in En. cbn [fst] in En. subst acc.
+  destruct o.
+  - destruct (tail_extends (N.of_nat (length bs)) (last_byte bs None) (S (length (s_stk s))) s
+                (N.of_nat (length bs)) (new ++ acc')) as [new2 E2].
+    destruct (tail _ _ _ _ _ _) as [acc2 o2]. cbn [fst] in *. subst acc2.
+    exists (rev new ++ rev new2). rewrite frev_rev, !rev_app_distr, app_assoc. reflexivity.
+  - exists (rev new). cbn [fst]. rewrite frev_rev, rev_app_distr. reflexivity.
+  - exists (rev new). cbn [fst]. rewrite frev_rev, rev_app_distr. reflexivity.
+Qed.
+
+(* {} LF / x ...: in length mode a slash that cannot begin an annotation ends the schema *)
+Definition st1 := Eval vm_compute in run (new_scanner true) 0%N None [x7b] [].
+Definition st2 := Eval vm_compute in run (new_scanner true) 0%N None [x7b; x7d] [].
+Definition st3 := Eval vm_compute in run (new_scanner true) 0%N None [x7b; x7d; x0a] [].
+Definition s3 : sc := r_sc st3.
+Definition acc3 : list lexev := r_acc st3.
+
+Lemma rb_obj_1 la : read_byte 1 (new_scanner true) 0%N None x7b la [] = (r_acc st1, inl (r_sc st1)).
+Proof. vm_compute. reflexivity. Qed.
+Lemma rb_obj_2 la : read_byte 1 (r_sc st1) 1%N (Some x7b) x7d la (r_acc st1) = (r_acc st2, inl (r_sc st2)).
+Proof. vm_compute. reflexivity. Qed.
+Lemma rb_obj_3 la : read_byte 1 (r_sc st2) 2%N (Some x7d) x0a la (r_acc st2) = (acc3, inl s3).
+Proof. vm_compute. reflexivity. Qed.
+
+Lemma run_obj_nl tl :
+  run (new_scanner true) 0%N None (x7b :: x7d :: x0a :: tl) [] = run s3 3%N (Some x0a) tl acc3.
+Proof.
+  cbn [run]. change (length (s_rts (new_scanner true))) with 0. rewrite rb_obj_1.
+  change (s_skip (r_sc st1)) with false. cbv iota.
+  change (length (s_rts (r_sc st1))) with 0. change (N.succ 0) with 1%N. rewrite rb_obj_2.
+  change (s_skip (r_sc st2)) with false. cbv iota.
+  change (length (s_rts (r_sc st2))) with 0. change (N.succ 1) with 2%N. rewrite rb_obj_3.
+  change (s_skip s3) with false. cbv iota. reflexivity.
+Qed.
+
+Lemma end_top_foreign_slash x rest : ch x 47 = false -> ch x 42 = false ->
+  st_end_top x2f (x :: rest) s3 = ROk (found EndTop s3).
+Proof.
+  intros H47 H42. unfold st_end_top.
+  change (is_new_line s3 x2f) with (ROk false : res bool). cbv iota.
+  change (is_annotation_start x2f) with true. cbv iota.
+  change (s_lc s3) with true. rewrite H47, H42. reflexivity.
+Qed.
+
+Lemma rb_foreign_slash x rest : ch x 47 = false -> ch x 42 = false ->
+  read_byte 1 s3 3%N (Some x0a) x2f (x :: rest) acc3 = (mkev EndTop 3 3 false :: acc3, inl s3).
+Proof.
+  intros H47 H42. cbn [read_byte]. change (s_step s3) with SEndTop.
+  change call_fuel with 16. rewrite call_S. lazy beta iota delta [dispatch].
+  rewrite (end_top_foreign_slash x rest H47 H42). vm_compute. reflexivity.
+Qed.
+
+Lemma run_obj_nl_slash x rest : ch x 47 = false -> ch x 42 = false ->
+  run (new_scanner true) 0%N None (x7b :: x7d :: x0a :: x2f :: x :: rest) [] =
+  run s3 4%N (Some x2f) (x :: rest) (mkev EndTop 3 3 false :: acc3).
+Proof.
+  intros H47 H42. rewrite run_obj_nl. cbn [run].
+  change (length (s_rts s3)) with 0. rewrite (rb_foreign_slash x rest H47 H42).
+  change (s_skip s3) with false. cbv iota. reflexivity.
+Qed.
+
+Theorem schema_len_foreign_slash : forall x rest, ch x 47 = false -> ch x 42 = false ->
+  schema_len (x7b :: x7d :: x0a :: x2f :: x :: rest) = VLen 2.
+Proof.
+  intros x rest H47 H42.
+  set (bs := x7b :: x7d :: x0a :: x2f :: x :: rest).
+  destruct (scan_events_from true bs _ _ _ _ _ (run_obj_nl_slash x rest H47 H42)) as [more Hev].
+  unfold schema_len. destruct (scan true bs) as [evs o]. cbn [fst] in Hev. subst evs.
+  assert (Hsz : N.of_nat (length bs) = (5 + N.of_nat (length rest))%N) by (unfold bs; cbn [length]; lia).
+  rewrite Hsz.
+  change (rev (mkev EndTop 3 3 false :: acc3) ++ more)
+    with (mkev ObjectBegin 0 0 false :: mkev ObjectEnd 0 1 false :: mkev NewLine 2 2 false ::
+          mkev EndTop 3 3 false :: more).
+  cbn [drop_leading_newlines length_loop e_type e_end e_htc].
+  destruct (N.eqb_spec 0 (5 + N.of_nat (length rest))) as [E|_]; [lia|].
+  destruct (N.eqb_spec 1 (5 + N.of_nat (length rest))) as [E|_]; [lia|].
+  destruct (N.eqb_spec 2 (5 + N.of_nat (length rest))) as [E|_]; [lia|].
+  change (0 + 1 + 1 + 1)%N with 3%N.
+  destruct (N.ltb_spec (5 + N.of_nat (length rest)) 3) as [E|_]; [lia|].
+  reflexivity.
+Qed.
+
+(* "{}" LF "/abc/" ; "{"id": 1}" LF LF "/cats/{id}" ; "[1, 2]" LF "// x" (annotations are banned after a
+   non-empty array: after the line break any slash ends the schema) ; "[1, 2] // x" (304) ; "1 /" *)
+Example schema_len_trailer_with_slash :
+  schema_len (bytes_of [123; 125; 10; 47; 97; 98; 99; 47]%N) = VLen 2 /\
+  schema_len (bytes_of [123; 34; 105; 100; 34; 58; 32; 49; 125; 10; 10; 47; 99; 97; 116; 115; 47; 123; 105; 100; 125]%N) = VLen 9 /\
+  schema_len (bytes_of [91; 49; 44; 32; 50; 93; 10; 47; 47; 32; 120]%N) = VLen 6 /\
+  schema_len (bytes_of [91; 49; 44; 32; 50; 93; 32; 47; 47; 32; 120]%N) = VErr 304 7 /\
+  schema_len (bytes_of [49; 32; 47]%N) = VErr 303 2.
+Proof. vm_compute. repeat split; reflexivity. Qed.
